@@ -8,6 +8,7 @@ from .common import *
 from .c15 import XR, XA, ordinal
 
 TOL = Fr(1, 2 ** 50)
+TABLES = {}   # hash -> (kind, [Fraction coefficients])
 MAX_ORDER = 4
 PARITY = {0: 1, 1: -1, 2: 1}
 REGIONS = [("tiny", Fr(1, 10 ** 6)), ("mid", Fr(1)), ("large", Fr(10))]
@@ -18,6 +19,7 @@ def table_hook(it, body, args):
         x, coef = unref(args[0]), unref(args[1])
         if isinstance(x, Sc) and isinstance(coef, Tup):
             h = hashlib.sha1(repr([unref(c).v.show() for c in coef.vs]).encode()).hexdigest()[:8]
+            TABLES[h] = (body["name"], [unref(c).v.const_value() for c in coef.vs])
             return Sc(apply_fn("%s#%s" % (body["name"], h), x.v))
     return NotImplemented
 
@@ -49,6 +51,8 @@ def run(tier):
         parity(chk, F, body, n)
         small_series(chk, F, body, n)
     switch_points(chk, F, bodies)
+    rational_arm_series(chk, F, bodies)
+    asymptotic_arm(chk, F, bodies)
     purity(chk, F)
     chk.floor("bessel bodies", chk.analysed.get("bessel bodies", 0), 3)
     return chk.finish()
@@ -248,3 +252,94 @@ def switch_points(chk, F, bodies):
            "J0 and J1 use the same kind of approximation (rational for |x| <= bound, asymptotic beyond) at every grid point", "src/bessel.rs",
            found="; ".join(diff[:4]) or "%d grid evaluations agree" % len(kinds), required="identical arm kinds")
     chk.count("switch grid evaluations", len(kinds))
+
+
+def horner_series_hook(it, body, args):
+    """polevl / p1evl over a constant table, in the arithmetic of the current domain (used with the power-series domain)"""
+    if body.get("name") in ("polevl", "p1evl") and body["path"].startswith("bessel::"):
+        x, coef = unref(args[0]), unref(args[1])
+        if not (isinstance(x, Sc) and isinstance(coef, Tup)):
+            return NotImplemented
+        cs = [unref(c).v for c in coef.vs]
+        d = it.dom
+        if body["name"] == "polevl":
+            acc, rest = cs[0], cs[1:]
+        else:
+            acc, rest = d.const(1), cs
+        for c in rest:
+            acc = d.add(d.mul(acc, x.v), c)
+        return Sc(acc)
+    return NotImplemented
+
+
+def rational_arm_series(chk, F, bodies):
+    """the arm used around 0 (rational approximation in x^2, J2 by recurrence), expanded as an exact power series from the
+    coefficient tables, agrees with the Maclaurin series of J_n: value and derivatives 1..4 at 0 to 1e-13"""
+    from ..doms import DomS, Ser
+    from math import factorial
+    for n in (0, 1, 2):
+        body = bodies.get("bessel_j%d" % n)
+        if body is None:
+            continue
+        dom = DomS(1)
+        key = "bessel|j%d|rational-arm|maclaurin" % n
+
+        def thunk(ctx):
+            it = Interp(F, dom, ctx=ctx, hooks=[horner_series_hook])
+            it.scalar_mode = True
+            return it.call_body(body, [Sc(Ser([0, 1]))])
+        try:
+            paths = explore(thunk, dom.oracle)
+        except (Unsupported, ValueError, ZeroDivisionError) as ex:
+            chk.undecide(key, "unsupported: %s" % ex, body_loc(F, body))
+            continue
+        if len(paths) != 1 or not isinstance(unref(paths[0][1]), Sc):
+            chk.undecide(key, "the arm around 0 is not a single rational expression", body_loc(F, body))
+            continue
+        got = unref(paths[0][1]).v.c
+        true = series.bessel_j(n)
+        worst = max(abs(got[k] - true[k]) * factorial(k) for k in range(MAX_ORDER + 1))
+        chk.ob(key, worst <= Fr(1, 10 ** 13),
+               "the rational-approximation arm reproduces J%d and its derivatives of order 1..4 at 0 (series computed exactly from the tables)" % n,
+               body_loc(F, body), found="largest derivative error at 0: %.2e; coefficients %s" % (float(worst), [float(c) for c in got[:7]]),
+               required="<= 1e-13; Maclaurin %s" % [float(c) for c in true[:7]])
+        chk.count("rational arms expanded")
+
+
+def asymptotic_arm(chk, F, bodies):
+    """leading behaviour of the asymptotic arm: sqrt(2/(pi x)) (P cos(x - phi) - Q sin(x - phi)), phi = (2n+1) pi/4, with
+    P -> 1 and Q -> (4n^2-1)/(8x) as x -> infinity (table functions evaluated at argument 0 = their last coefficient)"""
+    for n in (0, 1):
+        body = bodies.get("bessel_j%d" % n)
+        if body is None:
+            continue
+        key = "bessel|j%d|asymptotic-arm|leading" % n
+        try:
+            paths = eval_at(F, body, Fr(30))
+        except Unsupported as ex:
+            chk.undecide(key, "unsupported: %s" % ex, body_loc(F, body))
+            continue
+        if len(paths) != 1 or not isinstance(unref(paths[0][1]), Sc):
+            chk.undecide(key, "no single asymptotic arm", body_loc(F, body))
+            continue
+        form = resolve_sign(unref(paths[0][1]).v, +1)
+        # limit x -> infinity inside the table functions: their argument 25/x^2 -> 0
+        def lim(a):
+            if a[0] == "f" and "#" in a[1]:
+                h = a[1].split("#")[1]
+                if h in TABLES:
+                    kind, cs = TABLES[h]
+                    return Poly.const(cs[-1])
+            return None
+        limit_form = form.subst(lim)
+        amp = Poly.sym("FRAC_2_PI").pow(E(Fr(1, 2)))
+        phi = Poly.sym("FRAC_PI_4").scale(2 * n + 1)
+        want = amp * XR.pow(E(Fr(-1, 2))) * apply_fn("cos", XR - phi) - amp.scale(Fr(4 * n * n - 1, 8)) * XR.pow(E(Fr(-3, 2))) * apply_fn("sin", XR - phi)
+        # compare monomial by monomial with a tolerance on the (decimal) table constants
+        diff = limit_form - want
+        worst = max([abs(c) for c in diff.t.values()] or [Fr(0)])
+        structure_ok = set(limit_form.t) == set(want.t) or worst <= Fr(1, 10 ** 12)
+        chk.ob(key, structure_ok and worst <= Fr(1, 10 ** 12),
+               "for large x the asymptotic arm is sqrt(2/(pi x)) (cos(x - %d pi/4) - %s/(8x) sin(x - %d pi/4)) to leading orders" % (2 * n + 1, 4 * n * n - 1, 2 * n + 1),
+               body_loc(F, body), found=limit_form.show()[:300], required=want.show()[:300])
+        chk.count("asymptotic arms checked")
